@@ -22,15 +22,15 @@ type C03Case struct {
 	Carrier string `json:"carrier"` // query headers cookies urlencoded multipart json xml
 	Pairs   []KV   `json:"pairs"`
 	// Enc holds, per byte of the encoded text, the encoder's choice (0 raw-if-allowed, 1 %XX upper, 2 %xx lower, 3 '+' for blank)
-	EncSeed  []byte    `json:"enc_seed,omitempty"`
-	Files    []C03File `json:"files,omitempty"`
-	JSONDoc  string    `json:"json_doc,omitempty"` // for json: the document text (built by the generator together with Pairs = expected leaves)
+	EncSeed []byte    `json:"enc_seed,omitempty"`
+	Files   []C03File `json:"files,omitempty"`
+	JSONDoc string    `json:"json_doc,omitempty"` // for json: the document text (built by the generator together with Pairs = expected leaves)
 	// JSONDepth: SecRequestBodyJsonDepthLimit (0: the default); documents nested deeper must be flagged, not cut silently
-	JSONDepth int `json:"json_depth_limit,omitempty"`
-	XMLDoc   string    `json:"xml_doc,omitempty"`
-	XMLAttrs []string  `json:"xml_attrs,omitempty"`
-	XMLTexts []string  `json:"xml_texts,omitempty"`
-	Boundary string    `json:"boundary,omitempty"`
+	JSONDepth int      `json:"json_depth_limit,omitempty"`
+	XMLDoc    string   `json:"xml_doc,omitempty"`
+	XMLAttrs  []string `json:"xml_attrs,omitempty"`
+	XMLTexts  []string `json:"xml_texts,omitempty"`
+	Boundary  string   `json:"boundary,omitempty"`
 	// settings
 	ArgLimit   int    `json:"arg_limit"`
 	BodyLimit  int    `json:"body_limit"`
